@@ -578,7 +578,13 @@ impl Monitor for C07 {
                 s.violate_game("C07", "mid_turn_result_vs_list", o.rec, format!("engine={} expected={} offered=[{}] {}", term_text(o.term), term_text(exp), texts(o.rep_codes), state_text(sh)));
             }
             if o.rep_codes.is_empty() {
+                if matches!(sh.pend, Pend::Pull(..)) && o.norep_codes.iter().any(|c| is_step(*c) && sh.board.0[code_sq(*c)] != 0 && is_gold(sh.board.0[code_sq(*c)]) != sh.gold) {
+                    s.count("dead_end_with_a_pull_among_the_withheld");
+                }
                 if matches!(sh.pend, Pend::Push(..)) {
+                    if sh.board.apply(sh.gold, sh.pend, code_sq(o.norep_codes[0]), code_dir(o.norep_codes[0])).map_or(false, |a| a.board != sh.turn_start) {
+                        s.count("dead_end_pending_push_completion_is_third_repetition");
+                    }
                     self.dead_push += 1;
                 } else if o.norep_codes == [PASS] {
                     self.dead_pass_only += 1;
@@ -620,5 +626,7 @@ impl Monitor for C07 {
         s.add("dead_end_only_pass_and_withheld", self.dead_pass_only);
         s.add("dead_end_every_turn_ender_withheld", self.dead_other);
         s.add("states_can_pass_true_ne_false", self.can_pass_differs);
+        s.add("dead_end_with_a_pull_among_the_withheld", 0);
+        s.add("dead_end_pending_push_completion_is_third_repetition", 0);
     }
 }
